@@ -67,6 +67,7 @@ def main():
         env = os.environ.copy()
         env["VERIF_REPO"] = wt
         env["VERIF_SEED"] = a.seed
+        env["VERIF_EVIDENCE_DIR"] = wt + "/_verif_evidence"  # removed with the worktree: the committed evidence stays that of /repo
         for p in props:
             t0 = time.time()
             r = sh([sys.executable, os.path.join(VERIF, "check.py"), p, "--tier", a.tier], env=env, cwd=VERIF)
